@@ -72,6 +72,24 @@ WalkSet(A, I, E) == Reach(A, I) \ Reach(A, E)           \* git rev-list I --not 
 Monotone(par, ts, S)       == \A c \in S : \A p \in par[c] : ts[p] <= ts[c]
 StrictlyMonotone(par, ts, S) == \A c \in S : \A p \in par[c] : ts[p] < ts[c]
 
+(* The commit-graph file is an accelerator: a partial map  cg : Commit -> parents (and a         *)
+(* generation number) defined on a set S of commits that is closed under "parent of" -- the     *)
+(* history that existed when the file was written; commits made afterwards are not in it.       *)
+(* A correct file says cg[c] = par[c] for c \in S, so the history seen through it is par itself *)
+(* and NO answer defined above may depend on S.  Generation numbers allow one sound shortcut,   *)
+(* and only between two commits that are both covered.                                          *)
+DownClosed(par, S) == \A c \in S : par[c] \subseteq S
+SeenThrough(par, S) == [c \in DOMAIN par |-> IF c \in S THEN par[c] ELSE par[c]]
+RECURSIVE GenTab(_, _)
+GenTab(par, k) ==
+    IF k = 0 THEN <<>>
+    ELSE LET t == GenTab(par, k - 1)
+             m == IF par[k] = {} THEN 0 ELSE CHOOSE g \in {t[p] : p \in par[k]} : \A p \in par[k] : t[p] <= g
+         IN  Append(t, m + 1)
+Gen(par) == GenTab(par, Len(par))
+GenerationCutoffSound(G, A, S) ==            \* G = Gen(par)
+    \A a, b \in S : G[a] > G[b] => ~ IsAncestor(A, a, b)
+
 \* a sequence of commits lists no commit twice / no parent before one of its children
 NoDup(s)        == \A i, j \in 1..Len(s) : i # j => s[i] # s[j]
 TopoOK(par, s)  == \A i, j \in 1..Len(s) : i < j => s[i] \notin par[s[j]]
@@ -272,12 +290,12 @@ RECURSIVE TopoLoop(_, _)
 TopoLoop(par, s) == IF s.todo = <<>> THEN s ELSE TopoLoop(par, TopoStep(par, s))
 TopoReorder(par, s) == TopoLoop(par, TopoInit(par, s)).out
 
-Reverse(s) == [i \in 1..Len(s) |-> s[Len(s) + 1 - i]]
+RevSeq(s) == [i \in 1..Len(s) |-> s[Len(s) + 1 - i]]
 
 \* list(Walker(store, I, exclude=E, order=, reverse=, max_entries=, since=, until=))
 Walk(par, ts, rank, I, E, topo, rev, since, until, maxE) ==
     LET d == WalkDate(par, ts, rank, I, E, since, until, maxE)
         o == IF topo THEN TopoReorder(par, d) ELSE d
-    IN  IF rev THEN Reverse(o) ELSE o
+    IN  IF rev THEN RevSeq(o) ELSE o
 
 =============================================================================
